@@ -22,7 +22,9 @@ const (
 // MiniBidiClass classifies the runes the C08 generator uses; ok is false for anything else.
 func MiniBidiClass(r rune) (c BidiClass, ok bool) {
 	switch {
-	case r >= 'a' && r <= 'z', r >= 'A' && r <= 'Z':
+	case r >= 'a' && r <= 'z', r >= 'A' && r <= 'Z',
+		r >= 0x03B1 && r <= 0x03C9, // Greek small letters
+		r >= 0x0430 && r <= 0x044F: // Cyrillic small letters
 		return BidiL, true
 	case r >= 0x05D0 && r <= 0x05EA:
 		return BidiR, true
